@@ -2,6 +2,7 @@ package harness
 
 import (
 	"fmt"
+	"regexp"
 	"sort"
 	"strings"
 
@@ -271,6 +272,24 @@ func pickRunTo(t *simrt.Tape, w *WF) {
 		}
 	}
 	w.RunToMode = t.Choose(simrt.StGen, 3, 0)
+	if w.RunToMode == 1 {
+		// patterns are regular expressions, unanchored: "p1" also selects p10;
+		// sometimes use a character class that selects several processes
+		if t.Choose(simrt.StGen, 3, 0) == 1 {
+			pat := fmt.Sprintf("p[%d%d]", t.Choose(simrt.StGen, 4, 0), 1+t.Choose(simrt.StGen, 4, 0))
+			re := regexp.MustCompile(pat)
+			for _, p := range procs {
+				if re.MatchString(p) {
+					w.RunTo = []string{pat} // (only if it selects something: an empty run set is refused)
+					break
+				}
+			}
+		} else if t.Choose(simrt.StGen, 2, 0) == 1 {
+			for i := range w.RunTo {
+				w.RunTo[i] = "^" + w.RunTo[i] + "$"
+			}
+		}
+	}
 }
 
 var _ = fmt.Sprint
